@@ -416,7 +416,8 @@ class Env(gpp.UGenParameter, gpp.NodeParameter):
         return cls(
             utl.list_binop(
                 operator.add,
-                [0, 0, peak_level, peak_level * sustain_level, 0], bias),
+                [0, 0, peak_level, utl.list_binop(
+                    operator.mul, peak_level, sustain_level), 0], bias),
             [delay_time, attack_time, decay_time, release_time], curve, 3)
 
     @classmethod
@@ -446,7 +447,8 @@ class Env(gpp.UGenParameter, gpp.NodeParameter):
         return cls(
             utl.list_binop(
                 operator.add,
-                [0, peak_level, peak_level * sustain_level, 0], bias),
+                [0, peak_level, utl.list_binop(
+                    operator.mul, peak_level, sustain_level), 0], bias),
             [attack_time, decay_time, release_time], curve, 2)
 
     @classmethod
